@@ -88,6 +88,11 @@ add("C11", "exploration",
     "Trusted: nothing beyond the Rust API itself (it is the reference for this property). Inputs on which the Rust API panics are outside the quantifier: the history ends there and the class is counted. A panic inside an extern \"C\" function aborts the process; a SIGABRT handler reports it as a violation with the unshrunk in-flight case.",
     "stateful differential (lockstep) property testing of two API surfaces", "DESIGN.md#c11")
 
+add("C18", "exploration",
+    "Worker-pool sizes: generated sequential workloads (parallel batch recomputation on the persistent tree at depth 10/20, full witnesses, witness-map H vectors, Groth16 proofs with fixed blinding so that proof bytes are comparable, proof values, public-API prove+verify, verdicts on golden and tampered messages) run in child processes under RAYON_NUM_THREADS = 1, 2, 4, 16 with transcripts compared line by line. Sharing: one shared instance, 2/4/16 threads released together with generated read-only call lists and jitter, each result compared with the same call made sequentially; the same in fresh processes where the lazily initialised globals are first touched concurrently. Re-creation: a persistent instance is dropped and re-created up to 50 times in a row under a time bound. Schedules are sampled, not enumerated.",
+    "Interleavings are whatever the OS scheduler and the jitter produce: a race needing one specific interleaving inside rayon or sled can be missed (this technique does not own their schedulers). The bounded-time clause is checked with a watchdog whose expiry is reported as exit 2 (inconclusive), never as a violation.",
+    "differential testing across worker-pool sizes (child processes) + concurrent-vs-sequential comparison on a shared instance with generated schedules", "DESIGN.md#c18")
+
 ALL = [f"C{i:02d}" for i in range(1, 21)]
 PENDING_REASON = "check not built yet in this revision of /verif (planned, see DESIGN.md section 2); not claimed until its machinery exists"
 manifest = {
